@@ -26,6 +26,7 @@ type C06Case struct {
 	Binds    []int  `json:"binds,omitempty"`
 	Prefixes bool   `json:"prefixes,omitempty"` // also compile every prefix of Src
 	NoDump   bool   `json:"nodump,omitempty"`   // huge programs: Dump is quadratic, not exercised
+	NilMaps  bool   `json:"nil_maps,omitempty"` // the Config is a struct literal: maps the program does not need are nil
 	Origin   string `json:"origin,omitempty"`
 }
 
@@ -143,6 +144,17 @@ func c06Config(c C06Case) *eval.Config {
 	log := &Log{}
 	registerCustom(cc, log)
 	cc.StatelessOperators = []string{"c_id", "c_sum"}
+	if c.NilMaps {
+		// the way the repository's own tests build configs: a literal with only what is needed
+		lit := &eval.Config{VariableKeyMap: cc.VariableKeyMap, CompileOptions: cc.CompileOptions}
+		if c.Mask%2 == 0 {
+			lit.OperatorMap = cc.OperatorMap
+		}
+		if c.Mask%3 == 0 {
+			lit.ConstantMap = cc.ConstantMap
+		}
+		return lit
+	}
 	return cc
 }
 
@@ -408,11 +420,12 @@ func genUntyped(t *rapid.T, d int) *m.Node {
 
 func genC06(t *rapid.T) C06Case {
 	c := C06Case{
-		Infix:  rapid.Bool().Draw(t, "infix"),
-		Mask:   rapid.IntRange(0, 15).Draw(t, "mask"),
-		Undef:  rapid.Bool().Draw(t, "undef"),
-		Events: pickW(t, "events", 3, 1, 1),
-		Binds:  []int{rapid.IntRange(0, 1000).Draw(t, "bind0"), rapid.IntRange(0, 1000).Draw(t, "bind1")},
+		Infix:   rapid.Bool().Draw(t, "infix"),
+		Mask:    rapid.IntRange(0, 15).Draw(t, "mask"),
+		Undef:   rapid.Bool().Draw(t, "undef"),
+		Events:  pickW(t, "events", 3, 1, 1),
+		Binds:   []int{rapid.IntRange(0, 1000).Draw(t, "bind0"), rapid.IntRange(0, 1000).Draw(t, "bind1")},
+		NilMaps: rapid.IntRange(0, 5).Draw(t, "nilmaps") == 0,
 	}
 	switch pickW(t, "layer", 5, 1, 2) {
 	case 0:
